@@ -517,6 +517,40 @@ fn run(op: &Value) -> Value {
                        "params": format!("{:?}", params), "safe": s})
             }
         }
+        "plain_f64" => {
+            let v = f64::from_bits(op["bits"].as_str().unwrap().parse().unwrap());
+            let t = v.to_plain();
+            let want = if v.is_nan() { "NaN".to_string() } else if v == f64::INFINITY { "Infinity".to_string() } else if v == f64::NEG_INFINITY { "-Infinity".to_string() } else { t.clone() };
+            let back = f64::from_plain(&t);
+            let same = back.as_ref().map(|b| b.to_bits() == v.to_bits() || (b.is_nan() && v.is_nan())).unwrap_or(false);
+            json!({"ok": t == want && same, "text": t, "back": format!("{:?}", back)})
+        }
+        "plain_roundtrip" => {
+            let mut failed: Vec<String> = vec![];
+            macro_rules! rt { ($t:ty, $v:expr) => {{ let v: $t = $v; let t = v.to_plain(); match <$t as FromPlain>::from_plain(&t) { Ok(b) if b == v => {}, other => failed.push(format!("{} {:?} -> {:?} -> {:?}", stringify!($t), v, t, other.is_ok())) } }}; }
+            rt!(bool, true); rt!(bool, false); rt!(i32, i32::MIN); rt!(i32, 17);
+            rt!(SafeLong, SafeLong::min_value()); rt!(SafeLong, SafeLong::max_value()); rt!(SafeLong, SafeLong::new(-1000000000000000).unwrap());
+            rt!(String, "a b/c%".to_string());
+            rt!(conjure_object::Uuid, conjure_object::Uuid::from_u128(0x0123456789abcdef0123456789abcdef));
+            rt!(ResourceIdentifier, ResourceIdentifier::new("ri.a..b.c-d_e").unwrap());
+            rt!(BearerToken, BearerToken::new("abc+/=").unwrap());
+            rt!(bytes::Bytes, bytes::Bytes::from_static(&[0u8, 255, 254, 62, 63]));
+            rt!(conjure_object::DateTime<conjure_object::Utc>, "2017-01-02T03:04:05.678Z".parse().unwrap());
+            rt!(verif_types::types::p::TestEnum, verif_types::types::p::TestEnum::TwoB);
+            rt!(verif_types::types::p::TestEnum, verif_types::types::p::TestEnum::from_str("X_9").unwrap());
+            rt!(verif_types::types::p::SafeLongAlias, verif_types::types::p::SafeLongAlias(SafeLong::min_value()));
+            for bits in [0x7ff0000000000000u64, 0xfff0000000000000, 0x7ff8000000000001, 0xfff8000000000000, 0x3ff8000000000000, 0x8000000000000000] {
+                let v = f64::from_bits(bits);
+                let t = v.to_plain();
+                let b = f64::from_plain(&t).ok();
+                if !b.map(|b| b.to_bits() == bits || (b.is_nan() && v.is_nan())).unwrap_or(false) { failed.push(format!("f64 {:#x} -> {:?}", bits, t)); }
+                let a = verif_types::types::p::DoubleAlias(v);
+                let ta = a.to_plain();
+                if ta != t { failed.push(format!("DoubleAlias {:#x} -> {:?} vs {:?}", bits, ta, t)); }
+            }
+            if f64::INFINITY.to_plain() != "Infinity" || f64::NEG_INFINITY.to_plain() != "-Infinity" || f64::NAN.to_plain() != "NaN" { failed.push("spelling".into()); }
+            json!({"ok": failed.is_empty(), "failed": failed})
+        }
         _ => json!({"error": format!("unknown op {}", name)}),
     }
 }
